@@ -61,6 +61,8 @@ def cZ(i): return "(%d)%%Z" % i
 
 
 def fn_call(name, m, ids):
+    # set-valued attributes (edges_to_ignore) are written in sorted order: the translator types them Set -- membership only, iteration over a set is
+    # rejected -- so the order is no input of the model, and the Cases file is the same text from run to run (hash randomisation of str)
     st = m.G
     G = coq_graph(st, ids)
     cons = cL([cL([cE((ids[u], ids[v])) for (u, v) in c]) for c in (m.subpath_constraints or [])])
@@ -77,18 +79,18 @@ def fn_call(name, m, ids):
     elif name == "encode_kfd":
         flows = cL(["(%s, %s)" % (cE((ids[u], ids[v])), cQ(d[m.flow_attr])) for u, v, d in st.edges(data=True) if m.flow_attr in d])
         args = [G, cZ(m.k), cK3(ids, m.edge_indexes), cL([cZ(i) for i in m.path_indexes]), cK3(ids, m.edge_indexes), cQ(m.w_max),
-                cL([cE((ids[u], ids[v])) for (u, v) in m.edges_to_ignore]), cK3(ids, list(m.edges_set_to_zero)), cK3(ids, list(m.edges_set_to_one)),
+                cL([cE((ids[u], ids[v])) for (u, v) in sorted(m.edges_to_ignore, key=str)]), cK3(ids, list(m.edges_set_to_zero)), cK3(ids, list(m.edges_set_to_one)),
                 flows, "true" if m.is_solved() else "false", "true" if m.weight_type == int else "false"]
     elif name == "encode_kfdw":
         flows = cL(["(%s, %s)" % (cE((ids[u], ids[v])), cQ(d[m.flow_attr])) for u, v, d in st.edges(data=True) if m.flow_attr in d])
         oo = m.optimization_options
-        args = [G, cZ(m.k), cK3(ids, m.edge_indexes), cL([cE((ids[u], ids[v])) for (u, v) in m.edges_to_ignore]),
+        args = [G, cZ(m.k), cK3(ids, m.edge_indexes), cL([cE((ids[u], ids[v])) for (u, v) in sorted(m.edges_to_ignore, key=str)]),
                 cL([cQ(w) for w in m.solution_weights_superset]), cZ(m.original_k), flows, "true" if m.is_solved() else "false"] + \
                ["true" if oo.get(o, False) else "false" for o in ("optimize_with_safe_paths", "optimize_with_safe_sequences", "optimize_with_safe_zero_edges", "optimize_with_flow_safe_paths")]
         return "(let r := fn %s in enc_emitted (fst (fst r), snd (fst r)) ++ [enc_obj (snd r)])" % " ".join(args)      # (outcome, cols, rows, objective)
     elif name in ("encode_klae", "encode_klae_given"):
         flows = cL(["(%s, %s)" % (cE((ids[u], ids[v])), cQ(d[m.flow_attr])) for u, v, d in st.edges(data=True) if m.flow_attr in d])
-        ign = cL([cE((ids[u], ids[v])) for (u, v) in m.edges_to_ignore if u in ids and v in ids])
+        ign = cL([cE((ids[u], ids[v])) for (u, v) in sorted(m.edges_to_ignore, key=str) if u in ids and v in ids])
         if name == "encode_klae":
             args = [G, cZ(m.k), cK3(ids, m.edge_indexes), cQ(m.w_max), ign, cK3(ids, m.edge_indexes), cL([cZ(i) for i in m.path_indexes]),
                     cK3(ids, list(m.edges_set_to_zero)), cK3(ids, list(m.edges_set_to_one)), flows, "true" if m.weight_type == int else "false"]
@@ -97,7 +99,7 @@ def fn_call(name, m, ids):
                     "true" if m.allow_empty_paths else "false", flows, "true" if m.weight_type == int else "false"]
     elif name in ("encode_kmpe", "encode_kmpe_given"):
         flows = cL(["(%s, %s)" % (cE((ids[u], ids[v])), cQ(d[m.flow_attr])) for u, v, d in st.edges(data=True) if m.flow_attr in d])
-        ign = cL([cE((ids[u], ids[v])) for (u, v) in m.edges_to_ignore if u in ids and v in ids])
+        ign = cL([cE((ids[u], ids[v])) for (u, v) in sorted(m.edges_to_ignore, key=str) if u in ids and v in ids])
         sc = cL(["(%s, %s)" % (cE((ids[u], ids[v])), cQ(c)) for (u, v), c in m.edge_error_scaling.items() if u in ids and v in ids])
         common_args = [G, cZ(m.k), cK3(ids, m.edge_indexes), cQ(m.w_max), ign, cK3(ids, m.edge_indexes), cL([cZ(i) for i in m.path_indexes]), sc,
                        cL([cQ(c) for c in m.path_length_factors]), cL(["(%s, %s)" % (cQ(r[0]), cQ(r[1])) for r in m.path_length_ranges]),
@@ -114,7 +116,7 @@ def fn_call(name, m, ids):
         sc = cL(["(%s, %s)" % (cE((ids[u], ids[v])), cQ(c)) for (u, v), c in m.edge_error_scaling.items() if u in ids and v in ids])
         return "(let r := fn %s %s %s in enc_emitted (fst (fst r), snd (fst r)) ++ [enc_obj (snd r)])" % (cL([cE((ids[u], ids[v])) for (u, v) in m.edge_errors_vars]), be, sc)
     else:
-        args = [G, cZ(m.k), cons, cQ(m.subpath_constraints_coverage), cL([cE((ids[u], ids[v])) for (u, v) in m.edges_to_ignore]), cK3(ids, m.edge_indexes)]
+        args = [G, cZ(m.k), cons, cQ(m.subpath_constraints_coverage), cL([cE((ids[u], ids[v])) for (u, v) in sorted(m.edges_to_ignore, key=str)]), cK3(ids, m.edge_indexes)]
     return "enc_emitted (%s(fn %s)%s)" % (drop, " ".join(args), close)
 
 
@@ -447,6 +449,7 @@ def run_generated_kmpe(ctx):
 
 
 def run(ctx, groups, family="base"):
+    gencheck.CTX = ctx
     fam = FAMILIES[family]
     names = [n for g in groups for n in g[0]]
     base = os.path.join(common.OUT, "work", "gen"); os.makedirs(base, exist_ok=True)
